@@ -158,18 +158,6 @@ def LL.walk (s : LL) : Nat → Option Nat → List Nat
 /-- chain of cell `c` (fuel = number of particles suffices) -/
 def LL.traverse (s : LL) (n c : Nat) : List Nat := s.walk n (s.head c)
 
-/-- `flatten_raw` (row order) -/
-def flatten (ncx ncy : Nat) (dim : Nat) (c : Nat × Nat × Nat) : Nat :=
-  if dim = 1 then c.1 else if dim = 2 then c.1 + ncx * c.2.1
-  else c.1 + ncx * c.2.1 + ncx * ncy * c.2.2
-
-/-- `get_valid_cell_index`: flattened index of a cell inside the box, else `-1`
-(`none`) -/
-def validCellIndex (nc : Nat × Nat × Nat) (dim : Nat) (c : Int × Int × Int) : Option Nat :=
-  if 0 ≤ c.1 ∧ c.1 < nc.1 ∧ 0 ≤ c.2.1 ∧ c.2.1 < nc.2.1 ∧ 0 ≤ c.2.2 ∧ c.2.2 < nc.2.2 then
-    some (flatten nc.1 nc.2.1 dim (c.1.toNat, c.2.1.toNat, c.2.2.toNat))
-  else none
-
 /-- the 27 shifts in the loop order `ix, iy, iz` of `find_nearest_neighbors` -/
 def shifts27 : List (Int × Int × Int) :=
   [(-1 : Int), 0, 1].flatMap (fun a => [(-1 : Int), 0, 1].flatMap (fun b =>
